@@ -179,10 +179,13 @@ COLLIDING_LEAVES = [
     lambda g: LONG1(2 ** 1023), lambda g: BINFLOAT_bits(0x7fe0000000000000), lambda g: LONG1(-2 ** 1023),
     lambda g: BINFLOAT_bits(0xffe0000000000000), lambda g: LONG1(2 ** 64), lambda g: BINFLOAT_bits(0x43f0000000000000),
     lambda g: LONG1(-2 ** 63), lambda g: BINFLOAT_bits(0xc3e0000000000000), lambda g: LONG1(2 ** 1023 + 1), lambda g: LONG1(2 ** 1024),
+    lambda g: INT(-2 ** 63), lambda g: LONG1(3 * 2 ** 62), lambda g: BINFLOAT_bits(0x43e8000000000000), lambda g: INT(-(2 ** 53 + 1)),
+    lambda g: LONG1(-(2 ** 53 + 1)), lambda g: INT(2 ** 53 + 1), lambda g: BINFLOAT_bits(0x4340000000000000),
 ]
 COLLIDING_KINDS = ["int", "int", "float", "bool", "int", "int", "bool", "int", "bool", "float", "float", "int",
                    "ustr", "str", "bytes", "str", "ustr", "float", "int", "int", "int", "float", "int", "none",
-                   "int", "float", "int", "float", "int", "float", "int", "float", "int", "int"]
+                   "int", "float", "int", "float", "int", "float", "int", "float", "int", "int",
+                   "int", "int", "float", "int", "int", "int", "float"]
 
 
 class ProgGen:
